@@ -53,10 +53,39 @@ def world_space(tier, pal):
         w = dict(zip(names, combo))
         w['pal'] = pal
         out.append(w)
-    return out, dims
+    # legacy worlds: what DataCollection v1 was written for - subsets that live on the datasets, outside any
+    # subset group.  Its loader turns them into subset groups (coerce_subset_groups); label, state and the
+    # complete style must survive.  Only collection version 1 is exercised with them (later versions declare
+    # such subsets unsupported).
+    dims['plain_subsets'] = [0, 1, 2]
+    dims['plain_style'] = sorted(PLAIN_STYLES)
+    legacy = []
+    for w in out:
+        w['plain_subsets'] = 0
+        if w['groups'] == 0 and w['deco'] in ('plain', 'styled+meta'):
+            for n in (1, 2):
+                for ps in sorted(PLAIN_STYLES):
+                    legacy.append(dict(w, plain_subsets=n, plain_style=ps))
+    return out + legacy, dims
 
 
-def build_world(w):
+STYLE_ATTS = ('color', 'alpha', 'markersize', 'marker', 'linewidth', 'linestyle')
+PLAIN_STYLES = {
+    'default': {},
+    'marker': dict(color='#123456', marker='s', markersize=11),
+    'line': dict(alpha=0.25, linestyle='dashed', linewidth=4),
+}
+
+
+def full_style(style):
+    out = dict((a, getattr(style, a)) for a in STYLE_ATTS)
+    cm = getattr(style, 'preferred_cmap', None)
+    out['preferred_cmap'] = None if cm is None else getattr(cm, 'name', repr(cm))
+    return out
+
+
+def build_world(w, twin=False):
+    """twin=True: the reference for legacy worlds - the plain subsets are created as subset groups instead."""
     from glue.core import Data, DataCollection, ComponentID
     from glue.core.component_link import ComponentLink
     from glue.core.coordinates import AffineCoordinates, IdentityCoordinates
@@ -108,6 +137,17 @@ def build_world(w):
     if 'meta' in w['deco']:
         d.meta['a'] = 1
         e.meta['note'] = 'text'
+    specs = [('p1', d, lambda: d.id['x'] > p['x0'] + 1.5 * p['dx']),
+             ('q1', e, lambda: (e.id['y'] > p['y0'] + 0.5) & (e.id['k'] > 1))][:w.get('plain_subsets', 0)]
+    for i, (label, data, mk) in enumerate(specs):
+        sty = dict(PLAIN_STYLES[w['plain_style']]) if i == 0 else dict(color='#00bb22', marker='^', linestyle='dotted')
+        if twin:
+            s = dc.new_subset_group(label, mk())
+        else:
+            s = data.new_subset(label=label)
+            s.subset_state = mk()
+        for k, v in sty.items():
+            setattr(s.style, k, v)
     return dc
 
 
@@ -157,9 +197,8 @@ def observe(dc):
             except Exception as ex:
                 m = 'EXC ' + type(ex).__name__
             o[('data', L, 'mask', s.label)] = m
-            o[('data', L, 'subset-style', s.label)] = s.style.color
-        o[('data', L, 'style')] = dict((a, getattr(d.style, a)) for a in
-                                       ('color', 'alpha', 'markersize', 'marker', 'linewidth', 'linestyle'))
+            o[('data', L, 'subset-style', s.label)] = full_style(s.style)
+        o[('data', L, 'style')] = dict((a, getattr(d.style, a)) for a in STYLE_ATTS)
         joins = []
         for other, (c1, c2) in d._key_joins.items():
             t1 = c1 if isinstance(c1, tuple) else (c1,)
@@ -189,7 +228,7 @@ def observe(dc):
         for s in g.subsets:
             where.append([s.data.label if s.data is not None else None,
                           [i for i, t in enumerate(s.data.subsets) if t is s] if s.data is not None else []])
-        groups.append(dict(label=g.label, color=g.style.color, subsets=where))
+        groups.append(dict(label=g.label, style=full_style(g.style), subsets=where))
     o[('dc', 'groups')] = groups
     o[('dc', 'sg_count')] = dc._sg_count
     return o
@@ -216,11 +255,14 @@ def expressible(field, w, dv, cv):
     if kind in ('meta', 'owner'):
         return dv >= 5
     if kind == 'groups':
-        return cv >= 2
+        return cv >= 2 or bool(w.get('plain_subsets'))      # legacy worlds: the groups the v1 loader creates
     if kind == 'sg_count':
         return cv >= 3
     if kind == 'mask' and field[1] == 'f' and field[3] == 'g2' and w['link'] == 'none':
         # e.y > t evaluated on f: only reachable through the key join
+        return (w['join'] == 'single' and dv >= 3) or (w['join'] == 'tuple' and dv >= 4) or w['join'] == 'none'
+    if kind == 'mask' and field[1] == 'f' and field[3] == 'q1':
+        # uses e.k, which no link carries over to f: only reachable through the key join
         return (w['join'] == 'single' and dv >= 3) or (w['join'] == 'tuple' and dv >= 4) or w['join'] == 'none'
     if kind == 'mask' and field[1] == 'e' and field[3] == 'g2':
         return True
@@ -248,7 +290,7 @@ def describe(field, w, want, got, obs):
         return 'cross-dataset values|link=%s' % w['link']
     if kind == 'mask':
         via = ''
-        if field[1] == 'f' and field[3] == 'g2' and w['link'] == 'none' and w['join'] != 'none':
+        if field[1] == 'f' and (field[3] == 'g2' and w['link'] == 'none' or field[3] == 'q1') and w['join'] != 'none':
             via = '|through key-join=%s' % w['join']
         return 'subset mask%s|%s' % (via, got if isinstance(got, str) else 'wrong values')
     if kind == 'joins':
@@ -284,6 +326,17 @@ def round_trip(w, dv, cv):
     core.reset_globals()
     dc = build_world(w)
     want = observe(dc)
+    if w.get('plain_subsets'):
+        # the subsets on the datasets come back as subset groups: everything about subsets is taken from the twin
+        # world in which they were created as groups in the first place (uuids etc. from the world itself)
+        core.reset_globals()
+        ref = observe(build_world(w, twin=True))
+        for field in list(want):
+            if field[0] == 'data' and field[2] in ('subset-labels', 'mask', 'subset-style'):
+                del want[field]
+        for field, v in ref.items():
+            if field == ('dc', 'groups') or field[0] == 'data' and field[2] in ('subset-labels', 'mask', 'subset-style'):
+                want[field] = v
     text = versioned_dump(dc, dv, cv)
     doc = json.loads(text)
     bad = {}
@@ -331,8 +384,9 @@ def world_case(res, w0):
     with every Data version for that collection version, otherwise to the pair."""
     w = annotate(w0)
     M = {}
+    dc_versions = [1] if w.get('plain_subsets') else DC_VERSIONS
     for dv in DATA_VERSIONS:
-        for cv in DC_VERSIONS:
+        for cv in dc_versions:
             M[dv, cv], n = round_trip(w, dv, cv)
             res.case(sig=('rt', core.jdump(w0, sort_keys=True), dv, cv) if n else None,
                      sample=dict(world=w0, data_version=dv, collection_version=cv, fields_compared=n))
@@ -342,7 +396,7 @@ def world_case(res, w0):
         for desc, (field, got, want) in sorted(bad.items()):
             fld = tuple(field)
             can = (lambda a, b: True) if fld == ('load',) else (lambda a, b: expressible(fld, w, a, b))
-            row = all(desc in M[dv, c2] for c2 in DC_VERSIONS if can(dv, c2))
+            row = len(dc_versions) > 1 and all(desc in M[dv, c2] for c2 in dc_versions if can(dv, c2))
             col = all(desc in M[d2, cv] for d2 in DATA_VERSIONS if can(d2, cv))
             if row:
                 who = 'Data v%d' % dv
@@ -605,7 +659,8 @@ def all_cases(tier):
     return cases, dims, len(worlds), len(PATH_PATCHES)
 
 
-RULE = ('round trips: complete product of world features x all 20 (Data version, DataCollection version) pairs, '
+RULE = ('round trips: complete product of world features x all 20 (Data version, DataCollection version) pairs '
+        '(legacy worlds with subsets outside groups: x 5 Data versions, DataCollection v1, against a twin world), '
         'each loaded by the real GlueUnSerializer and compared field by field with the original within what the '
         'version expresses; non-trivial = at least one field compared.  registries and rename table: every entry.  '
         'VersionedDict: every __setitem__ history (keys a,b x versions 0..4,"x") to the depth bound without '
@@ -615,6 +670,7 @@ RULE = ('round trips: complete product of world features x all 20 (Data version,
 def run(tier):
     t0 = time.time()
     cases, dims, nworlds, nren = all_cases(tier)
+    nlegacy = sum(1 for c in cases if c[0] == 'world' and c[1].get('plain_subsets'))
     cases = core.rotate(cases)
     total = core.run_shards(work, [(tier, s) for s in core.split(cases, core.jobs() * 4)])
     vd = []
@@ -626,7 +682,7 @@ def run(tier):
         c.pop('levels', None)
         vd.append(c)
     cov = dict(product_dimensions=dict(world_features=dims, worlds=nworlds, data_versions=list(DATA_VERSIONS),
-                                       collection_versions=list(DC_VERSIONS), round_trips=nworlds * 20,
+                                       collection_versions=list(DC_VERSIONS), round_trips=nworlds * 20 - nlegacy * 15, legacy_worlds_collection_v1_only=nlegacy,
                                        rename_entries=nren, versioned_dict_alphabet=[list(KEYS), list(VERSIONS)]),
                versioned_dict=vd)
     return core.finish(
